@@ -1068,9 +1068,9 @@ def loop_run(shape: str, iters_sym: Any, max_jumps: int | None, choices: list[An
                     break
             limit = DEFAULT_MAX_JUMPS_DOC if max_jumps is None else max_jumps
             ctx = None if max_jumps is None else {"_max_jumps": max_jumps}
-            wf, roles, source = loop_shapes()[shape](iters, ctx)
-            w = World()
+            w = World()  # before the workflow is built: the world resets the id counter
             try:
+                wf, roles, source = loop_shapes()[shape](iters, ctx)
                 w.submit(wf)
                 step = 0
                 cp = 0
